@@ -56,6 +56,13 @@ func init() {
 		"(*github.com/dgraph-io/badger/v3.Iterator).Close":             "IterClose",
 		"(*github.com/dgraph-io/badger/v3.Item).Key":                   "ItemKey",
 		"(*github.com/dgraph-io/badger/v3.Item).Value":                 "ItemValue",
+		"google.golang.org/grpc/status.New":                                   "StatusNew",
+		"google.golang.org/grpc/status.Convert":                               "StatusConvert",
+		"(*google.golang.org/grpc/internal/status.Status).WithDetails":        "StatusWithDetails",
+		"(*google.golang.org/grpc/internal/status.Status).Details":            "StatusDetails",
+		"(*google.golang.org/grpc/internal/status.Status).Err":                "StatusErr",
+		"(*google.golang.org/grpc/internal/status.Status).Code":               "StatusCode",
+		"(*google.golang.org/grpc/internal/status.Status).Message":            "StatusMessage",
 	} {
 		redirects[lib] = envPkg + "." + stub
 	}
@@ -725,6 +732,15 @@ func init() {
 	})
 	reg("errors.As", func(m *Machine, th *Thread, fn *ssa.Function, a []Value) (Value, bool) {
 		return m.errorsAs(th, a[0].(IfaceV), a[1].(IfaceV)), true
+	})
+	reg("(*errors.joinError).Error", func(m *Machine, th *Thread, fn *ssa.Function, a []Value) (Value, bool) {
+		// the library builds the string with unsafe.String; messages are opaque here
+		c := a[0].(*Cell)
+		var parts []string
+		for _, e := range c.v.(StructV).f[0].v.(SliceV).cells {
+			parts = append(parts, m.fmtValue(th, e.v))
+		}
+		return strings.Join(parts, "\n"), true
 	})
 	reg("fmt.Errorf", func(m *Machine, th *Thread, fn *ssa.Function, a []Value) (Value, bool) {
 		return m.fmtErrorf(th, m.mustStr(a[0]), a[1].(SliceV)), true
